@@ -474,7 +474,8 @@ def expected_size(ctx):
     if len(opt) != 1:
         return ctx.anchor_missing('LZMAWriter: unique Option<u64> declared-size field')
     fld = opt[0]
-    f = w[0]
+    from rules.io import effective_read
+    f = effective_read(F, w[0])   # `write` may be a thin wrapper that records failures
     prov = Prov(f)
     fills = [bi for bi, t, c in f.calls() if c.is_('LZEncoder::fill_window', 'LZEncoderData::fill_window') or c.name == 'fill_window']
     if not fills:
